@@ -123,9 +123,14 @@ func (t *tr) goType(e ast.Expr) ty {
 			return tMap
 		}
 	case *ast.ArrayType:
+		// []byte, and [N]byte (only ever sliced with [:] and compared in the translated functions)
+		if id, ok := x.Elt.(*ast.Ident); ok && (id.Name == "byte" || id.Name == "uint8") {
+			return tBytes
+		}
+		// a named slice of structs: the element type (see the @pair form in translate)
 		if x.Len == nil {
-			if id, ok := x.Elt.(*ast.Ident); ok && (id.Name == "byte" || id.Name == "uint8") {
-				return tBytes
+			if et := t.goType(x.Elt); strings.HasPrefix(string(et), "struct:") {
+				return ty("slice:" + strings.TrimPrefix(string(et), "struct:"))
 			}
 		}
 	}
@@ -794,6 +799,15 @@ func translate(p *pkg, t *tr, spec string, w *strings.Builder) {
 	} else {
 		fd = p.findFunc(spec)
 	}
+	pair := false
+	if strings.HasSuffix(name, "@pair") {
+		// `func (s T) Less(i, j int) bool` on a slice type T = []E whose body reads s only as s[i] and s[j]:
+		// translated as a function of the two elements (sort.Interface comparators).
+		pair = true
+		name = strings.TrimSuffix(name, "@pair")
+		spec = strings.TrimSuffix(spec, "@pair")
+		fd = findMethod(p, spec[:strings.Index(spec, ".")], name)
+	}
 	marker := func(why string) {
 		fmt.Fprintf(w, "/-- `%s` has left the translatable subset: %s -/\ndef %s_untranslatable : String := %s\n\n", spec, why, name, leanStr(why))
 	}
@@ -802,6 +816,12 @@ func translate(p *pkg, t *tr, spec string, w *strings.Builder) {
 		return
 	}
 	var out strings.Builder
+	var undo []func() // the @pair form rewrites the AST, which other emitters read too
+	defer func() {
+		for _, u := range undo {
+			u()
+		}
+	}()
 	func() {
 		defer func() {
 			if r := recover(); r != nil {
@@ -815,7 +835,36 @@ func translate(p *pkg, t *tr, spec string, w *strings.Builder) {
 		}()
 		t.vars = map[string]ty{}
 		var params []string
-		if fd.Recv != nil {
+		if pair {
+			rt := t.goType(fd.Recv.List[0].Type)
+			if !strings.HasPrefix(string(rt), "slice:") || len(fd.Type.Params.List) != 1 || len(fd.Type.Params.List[0].Names) != 2 {
+				t.bad("@pair: not a method (i, j int) on a slice of structs")
+			}
+			et := ty("struct:" + strings.TrimPrefix(string(rt), "slice:"))
+			sv := fd.Recv.List[0].Names[0].Name
+			for _, n := range fd.Type.Params.List[0].Names {
+				en := sv + "_" + n.Name
+				t.vars[en] = et
+				params = append(params, fmt.Sprintf("(%s : %s)", en, leanTy(et)))
+			}
+			// rewrite s[i] / s[j] into the element variables; any other use of s, i or j is refused below
+			iv, jv := fd.Type.Params.List[0].Names[0].Name, fd.Type.Params.List[0].Names[1].Name
+			var rewrite func(n ast.Node) bool
+			rewrite = func(n ast.Node) bool {
+				if sel, ok := n.(*ast.SelectorExpr); ok {
+					if ix, ok := sel.X.(*ast.IndexExpr); ok && exprName(ix.X) == sv && (exprName(ix.Index) == iv || exprName(ix.Index) == jv) {
+						old := sel.X
+						undo = append(undo, func() { sel.X = old })
+						sel.X = ast.NewIdent(sv + "_" + exprName(ix.Index))
+					}
+				}
+				return true
+			}
+			ast.Inspect(fd.Body, rewrite)
+			if usesIdent(fd.Body, sv) || usesIdent(fd.Body, iv) || usesIdent(fd.Body, jv) {
+				t.bad("@pair: the slice or an index is used other than as s[i].f / s[j].f")
+			}
+		} else if fd.Recv != nil {
 			f := fd.Recv.List[0]
 			pt := t.goType(f.Type)
 			if pt == tUnk {
@@ -825,6 +874,9 @@ func translate(p *pkg, t *tr, spec string, w *strings.Builder) {
 			params = append(params, fmt.Sprintf("(%s : %s)", f.Names[0].Name, leanTy(pt)))
 		}
 		for _, f := range fd.Type.Params.List {
+			if pair {
+				break
+			}
 			pt := t.goType(f.Type)
 			if pt == tUnk {
 				t.bad("parameter type %s", exprName(f.Type))
@@ -897,7 +949,7 @@ var transModules = []struct {
 	{"TransJson", func(p *Pkgs) *pkg { return p.Root }, []string{"readHexDigits", "isNegativeZeroLiteral"}},
 	{"TransFedReq", func(p *Pkgs) *pkg { return p.Fclient }, []string{"isSafeInHTTPQuotedString"}},
 	{"TransSpec", func(p *Pkgs) *pkg { return p.Spec }, []string{"isDNSNameChar"}},
-	{"TransStateRes", func(p *Pkgs) *pkg { return p.Root }, []string{"sortStateResV2ConflictedPowerLevelHeap", "sortStateResV2ConflictedOtherHeap"}},
+	{"TransStateRes", func(p *Pkgs) *pkg { return p.Root }, []string{"sortStateResV2ConflictedPowerLevelHeap", "sortStateResV2ConflictedOtherHeap", "conflictedEventSorter.Less@pair"}},
 	{"TransKeys", func(p *Pkgs) *pkg { return p.Root }, []string{"PublicKeyLookupResult.WasValidAt"}},
 	{"TransLevels", func(p *Pkgs) *pkg { return p.Root }, []string{"PowerLevelContent.UserLevel", "PowerLevelContent.EventLevel", "PowerLevelContent.NotificationLevel"}},
 }
@@ -944,7 +996,7 @@ func translatedFor(prop, recv, name string) bool {
 			continue
 		}
 		for _, f := range m.funcs {
-			want := f
+			want := strings.TrimSuffix(f, "@pair")
 			if !strings.Contains(f, ".") {
 				want = "." + f
 			}
